@@ -588,6 +588,14 @@ func checkCase(t ev.TB, fe *fontEntry, c *Case, survey func(check string, f fail
 			}
 		}
 	}
+	// unspecified: a runaway (recursive lookups multiplying glyphs until the operation / length
+	// budget, which depends on the buffer length, is exhausted) is cut off at a place upstream
+	// does not specify (GSUB-3 expects "*"); the whole text and a piece have different budgets
+	if len(whole) > 32*c.Length+256 {
+		ev.Excluded("unspecified:operation-budget-exhausted")
+		ev.Case(false, c, append(labels, "excluded_runaway")...)
+		return
+	}
 	forward := s.props.Direction == harfbuzz.LeftToRight || s.props.Direction == harfbuzz.TopToBottom
 	if forward {
 		labels = append(labels, "forward")
